@@ -19,6 +19,10 @@ where
     Self::NotNan: Ord + Clone,
 {
     const IS_FLOAT: bool;
+    /// the element type of "the same data with the missing values deleted" (i32 for Option<i32>, N64 for f64)
+    type Plain: Ord + Clone + Elem + num_traits::FromPrimitive + num_traits::ToPrimitive + num_traits::NumOps;
+    /// the plain value of a non-missing element
+    fn to_plain(&self) -> Self::Plain;
     /// a non-missing value, distinct for distinct i (as far as the type allows)
     fn val(i: usize) -> Self;
     fn missing(i: usize) -> Self;
@@ -36,6 +40,10 @@ where
 
 impl Miss for f64 {
     const IS_FLOAT: bool = true;
+    type Plain = N64;
+    fn to_plain(&self) -> N64 {
+        N64::unchecked_new(*self)
+    }
     fn val(i: usize) -> Self {
         (i as f64) * 0.5 - 7.25
     }
@@ -54,6 +62,10 @@ impl Miss for f64 {
 }
 impl Miss for f32 {
     const IS_FLOAT: bool = true;
+    type Plain = N32;
+    fn to_plain(&self) -> N32 {
+        N32::unchecked_new(*self)
+    }
     fn val(i: usize) -> Self {
         (i as f32) * 0.5 - 7.25
     }
@@ -73,6 +85,8 @@ macro_rules! miss_opt_int {
     ($($t:ident),*) => {$(
         impl Miss for Option<$t> {
             const IS_FLOAT: bool = false;
+            type Plain = $t;
+            fn to_plain(&self) -> $t { self.unwrap() }
             fn val(i: usize) -> Self {
                 // spread over the type, wrap for narrow types
                 Some(((i as i128 * 7 - 20) as u128 % ($t::MAX as u128 - 3)) as $t)
@@ -95,6 +109,10 @@ macro_rules! miss_opt_int {
 miss_opt_int!(u8, u16, u32, u64, u128, i8, i16, i32, i64, i128);
 impl Miss for Option<N64> {
     const IS_FLOAT: bool = false;
+    type Plain = N64;
+    fn to_plain(&self) -> N64 {
+        self.unwrap()
+    }
     fn val(i: usize) -> Self {
         Some(n64((i as f64) * 0.25 - 3.0))
     }
@@ -110,6 +128,10 @@ impl Miss for Option<N64> {
 }
 impl Miss for Option<N32> {
     const IS_FLOAT: bool = false;
+    type Plain = N32;
+    fn to_plain(&self) -> N32 {
+        self.unwrap()
+    }
     fn val(i: usize) -> Self {
         Some(N32::new((i as f32) * 0.25 - 3.0))
     }
@@ -409,6 +431,15 @@ where
         }
         _ => {}
     }
+    // one case in twelve: every non-missing value is a distinct integer beyond 2^24 (not representable in f32) and,
+    // where the type allows, beyond 2^53 (interpolation of Option<int> lanes goes through floating point)
+    if rng.chance(0.085) {
+        for i in 0..total {
+            if !data[i].raw_missing() {
+                data[i] = T::special(3 + 5 * rng.below(9));
+            }
+        }
+    }
     // a third of the cases carry values at the edges of the type (infinities, extremes, integers that are not
     // exactly representable in f32 / f64)
     if rng.chance(0.33) {
@@ -622,7 +653,16 @@ fn c03_tracked(rng: &mut Rng, acc: &mut Acc) {
     let nd = *rng.pick(&[1usize, 2, 2, 3, 3, 4]);
     let axis = rng.below(nd);
     let mut shape: Vec<usize> = (0..nd).map(|_| 1 + rng.below(4)).collect();
-    shape[axis] = 1 + rng.below(14);
+    // one case in eight has long lanes (>= 32) with few other lanes
+    let long = rng.chance(0.125);
+    shape[axis] = if long { 32 + rng.below(40) } else { 1 + rng.below(14) };
+    if long {
+        for a in 0..nd {
+            if a != axis {
+                shape[a] = 1 + rng.below(2);
+            }
+        }
+    }
     let total: usize = shape.iter().product();
     let alpha = *rng.pick(&[1usize, 2, 4, 100]);
     let data: Vec<Tracked> = (0..total).map(|i| Tracked { key: rng.below(alpha) as u8, id: i as u16 }).collect();
@@ -644,7 +684,8 @@ fn c03_tracked(rng: &mut Rng, acc: &mut Acc) {
             0 | 1 => {
                 opname = "quantiles_axis_mut";
                 let nq = rng.below(5);
-                let mut qs: Vec<N64> = (0..nq).map(|_| n64(rng.unit())).collect();
+                let qmax = *rng.pick(&[1.0, 1.0, 0.5, 0.2]);
+                let mut qs: Vec<N64> = (0..nq).map(|_| n64(rng.unit() * qmax)).collect();
                 if op == 1 && nq > 0 {
                     // an erroring call must not modify anything
                     qs[nq - 1] = n64(*rng.pick(&[-0.5, 1.5, -1e-9, 1.0 + 1e-9]));
@@ -893,9 +934,9 @@ where
     x.try_as_not_nan().expect("non-missing").clone()
 }
 
-fn quantile_plain<T: Miss>(lane: &[T::NotNan], q: N64, st: St) -> Result<T::NotNan, String>
+fn quantile_plain<T: Miss>(lane: &[T::Plain], q: N64, st: St) -> Result<T::Plain, String>
 where
-    T::NotNan: Ord + Clone + num_traits::FromPrimitive + num_traits::ToPrimitive + num_traits::NumOps,
+    T::NotNan: Ord + Clone,
 {
     let mut a = Array1::from(lane.to_vec());
     let r = catch(|| match st {
@@ -1106,9 +1147,11 @@ where
         let mut rem = c.shape.clone();
         rem.remove(c.axis);
         // expected per lane from the plain routine on the filtered lane
-        let mut expected: Vec<Result<Option<T::NotNan>, String>> = vec![];
+        // the plain routine runs on the PLAIN element type (i32 for Option<i32>): the statement's "same data with
+        // the missing values deleted"
+        let mut expected: Vec<Result<Option<T::Plain>, String>> = vec![];
         for l in &lanes {
-            let fl: Vec<T::NotNan> = l.iter().filter(|&&i| !c.data[i].raw_missing()).map(|&i| nn_of(&c.data[i])).collect();
+            let fl: Vec<T::Plain> = l.iter().filter(|&&i| !c.data[i].raw_missing()).map(|&i| c.data[i].to_plain()).collect();
             if fl.is_empty() {
                 expected.push(Ok(None));
             } else {
@@ -1140,14 +1183,14 @@ where
                     let ok = match ex {
                         Ok(None) => got.raw_missing(),
                         // compared through the underlying representation (an interpolation of +inf and -inf is a NaN on both sides)
-                        Ok(Some(w)) => got.bits() == T::nn_bits(w),
+                        Ok(Some(w)) => got.bits() == w.bits(),
                         Err(_) => true, // plain routine itself fails on this lane (F7-type input): not comparable
                     };
                     if !ok {
                         acc.violation(
                             "filter_then_plain",
                             None,
-                            cj(&opn, format!("lane {}: got {}, the plain routine on the filtered lane gives {}", li, if got.raw_missing() { "NA".into() } else { got.show() }, match ex { Ok(Some(w)) => T::from_not_nan(w.clone()).show(), Ok(None) => "NA".into(), Err(e) => e.clone() })),
+                            cj(&opn, format!("lane {}: got {}, the plain routine on the filtered lane gives {}", li, if got.raw_missing() { "NA".into() } else { got.show() }, match ex { Ok(Some(w)) => w.show(), Ok(None) => "NA".into(), Err(e) => e.clone() })),
                         );
                         return;
                     }
